@@ -556,3 +556,17 @@ def bi_next(ex, args, kw):
         if e.etype == "StopIteration" and len(args) > 1:
             return args[1]
         raise
+
+
+@lib("math", "isclose")
+def math_isclose(ex, args, kw):
+    """math.isclose(a, b, rel_tol=1e-09, abs_tol=0.0): |a-b| <= max(rel_tol * max(|a|, |b|), abs_tol)  (reals)"""
+    a, b = args[0], args[1]
+    rel, ab = kw.get("rel_tol", 1e-09), kw.get("abs_tol", 0.0)
+    if not is_z3(a) and not is_z3(b):
+        import math
+        return math.isclose(a, b, rel_tol=rel, abs_tol=ab)
+    a3, b3 = to_real(a), to_real(b)
+    absv = lambda x: z3.If(x >= 0, x, -x)
+    mx = lambda x, y: z3.If(x >= y, x, y)
+    return absv(a3 - b3) <= mx(to_real(rel) * mx(absv(a3), absv(b3)), to_real(ab))
